@@ -1,6 +1,7 @@
 ---------------------------- MODULE Verdict ----------------------------
 (* Verdict registers for batch judging / batch trace validation (run with -workers 1).
-   register 1: set of <<id, clause>> of rejected cases (capped so a broken tree stays cheap)
+   register 1: set of <<id, clause>> of rejected cases (capped PER CLAUSE so that a frequent finding
+               cannot crowd out a rare one, and in total so a broken tree stays cheap)
    register 2: number of accepted cases;  register 3: number of rejected cases.
    Every case gets exactly one verdict (totality): the driver checks accepted + rejected = #cases. *)
 EXTENDS TLC, TLCExt, Naturals, FiniteSets
@@ -9,7 +10,8 @@ VInit == TLCSet(1, {}) /\ TLCSet(2, 0) /\ TLCSet(3, 0)
 VAccept == TLCSet(2, TLCGet(2) + 1)
 VReject(id, clause) ==
     /\ TLCSet(3, TLCGet(3) + 1)
-    /\ IF Cardinality(TLCGet(1)) < 60 THEN TLCSet(1, TLCGet(1) \cup {<<id, clause>>}) ELSE TRUE
+    /\ IF Cardinality({x \in TLCGet(1) : x[2] = clause}) < 12 /\ Cardinality(TLCGet(1)) < 400
+       THEN TLCSet(1, TLCGet(1) \cup {<<id, clause>>}) ELSE TRUE
 VGive(id, clause) == IF clause = "ok" THEN VAccept ELSE VReject(id, clause)
 VReport == PrintT(<<"VERDICT", TLCGet(2), TLCGet(3), TLCGet(1)>>)
 =============================================================================
